@@ -442,7 +442,42 @@ def rule_guards(rep: Report, repo: Repo):
 # ---------------------------------------------------------------------------
 
 
+def _int_eval(e, subst: dict):
+    """Integer value of an index expression after substituting sub-expressions by text; None if not closed."""
+    from .resolve import clone
+
+    class T(ast.NodeTransformer):
+        def generic_visit(self, node):
+            if isinstance(node, ast.expr) and norm(node) in subst:
+                return ast.Constant(value=subst[norm(node)])
+            return super().generic_visit(node)
+    t = T().visit(clone(e))
+    for n in ast.walk(t):
+        if not isinstance(n, (ast.BinOp, ast.UnaryOp, ast.Constant, ast.operator, ast.unaryop, ast.expr_context)):
+            return None
+    try:
+        v = eval(compile(ast.fix_missing_locations(ast.Expression(body=t)), "<const>", "eval"), {"__builtins__": {}})
+    except Exception:
+        return None
+    return v if isinstance(v, int) and not isinstance(v, bool) else None
+
+
+def _range_values(it, subst):
+    if not (isinstance(it, ast.Call) and call_name(it) == "range" and not it.keywords and 1 <= len(it.args) <= 3):
+        return None
+    vals = [_int_eval(a, subst) for a in it.args]
+    if None in vals:
+        return None
+    return list(range(*vals))
+
+
 def rule_h0_block_diagonal(rep: Report, repo: Repo):
+    """A non-zero block (a, b), a != b, of H_0 must be rejected: all of them when hermitian=False, at least one of
+    (a, b) / (b, a) when hermitian=True.  Decided by running the loop nest of the check on a 3 x 3 block grid with the
+    loop bounds and skip conditions folded to integers, then the remaining guard by truth table."""
+    from .e2c import _const_eval
+    from .resolve import env_at, resolved
+    from .sem import outcomes
     R = "E5.h0"
     f = repo.find(f"{MOD}::block_diagonalize", R)
     loc = lambda n: repo.loc(MOD, n)
@@ -450,68 +485,83 @@ def rule_h0_block_diagonal(rep: Report, repo: Repo):
     for r, e in raises_in(f):
         if e != "ValueError":
             continue
+        loops = []
+        p = r
+        while p is not f:
+            p = p._parent
+            if isinstance(p, ast.For):
+                loops.append(p)
         lits = path_condition(r, f)
-        texts = [norm(t) for t, _ in lits]
-        if any("is not zero" in t or "is zero" in t for t in texts) and any("i == j" in t or "i != j" in t for t in texts):
-            cands.append((r, lits))
+        if len(loops) == 2 and any("zero" in norm(t) for t, _ in lits):
+            cands.append((r, loops))
     if len(cands) != 1:
-        rep.fail(R, f"{MOD}::block_diagonalize rejection of a non-block-diagonal H_0 not found",
-                 f"{len(cands)} candidate raise statements", loc(f))
-        return
-    r, lits = cands[0]
-    # atoms: same (i == j), lower (i > j), hermitian, nonzero (block is not zero), symbolic (isinstance(block, sympy...))
-    def classify(a):
-        t, pol = canon_atom(a)
-        m = {"i == j": "same", "j == i": "same", "i > j": "lower", "j < i": "lower", "i < j": ("lowereq", False),
-             "hermitian": "hermitian", "block is zero": ("nonzero", False)}
-        if t in m:
-            v = m[t]
-            return (v, pol) if isinstance(v, str) else (v[0], pol == v[1]) if v[0] != "lowereq" else None
-        if t.startswith("isinstance(block, (sympy.") or t.startswith("isinstance(block, sympy."):
-            return ("symbolic", pol)
-        return None
-    names = ["same", "lower", "hermitian", "nonzero", "symbolic"]
-    # atoms the table does not know are extra conjuncts/disjuncts: they are quantified universally,
-    # so a guard that depends on them cannot match the required table
-    extra = []
-    for t, _pol in lits:
-        for a in bool_atoms(t):
-            if classify(a) is None and canon_atom(a)[0] not in extra:
-                extra.append(canon_atom(a)[0])
-    ok = True
-    bad_row = None
-    for vals in product([False, True], repeat=5 + len(extra)):
-        env = dict(zip(names + extra, vals))
-        if env["same"] and env["lower"]:
-            continue
-        def atom(n):
-            c = classify(n)
-            if c is None:
-                t, pol = canon_atom(n)
-                return env[t] if pol else not env[t]
-            return env[c[0]] if c[1] else not env[c[0]]
-        fires = all(eval_bool(t, atom) == pol for t, pol in lits)
-        skip = env["same"] or (env["hermitian"] and env["lower"])
-        want = (not skip) and env["nonzero"] and not env["symbolic"]
-        if fires != want:
-            ok, bad_row = False, env
-            break
-    rep.check(ok, R, f"{MOD}::block_diagonalize rejects a non-zero off-diagonal block of H_0 (every i != j; upper only when Hermitian)",
-              f"guard disagrees with the required table at {bad_row}" if bad_row else
-              "truth table over (same, lower, hermitian, nonzero, symbolic) matches", loc(r))
-    # block = H[(i, j, *zero_order)], loops over all block pairs
-    loops = []
-    p = r
-    while p is not f:
-        p = p._parent
-        if isinstance(p, ast.For):
-            loops.append(p)
-    rng = {norm(l.target): norm(l.iter) for l in loops}
-    ok = rng == {"i": "range(H.shape[0])", "j": "range(H.shape[1])"}
-    rep.check(ok, R, f"{MOD}::block_diagonalize block-diagonality check visits every block pair", str(rng), loc(loops[-1] if loops else r))
-    blk = [n for n in own_nodes(loops[0]) if isinstance(n, ast.Assign) and norm(n.targets[0]) == "block"] if loops else []
-    ok = len(blk) == 1 and norm(blk[0].value) in ("H[i, j, *zero_order]", "H[(i, j, *zero_order)]")
-    rep.check(ok, R, f"{MOD}::block_diagonalize the tested block is H[i, j] at order zero", norm(blk[0].value) if blk else "", loc(r))
+        raise AnalysisError(R, f"{len(cands)} candidate raise statements for the block-diagonality check of H_0 "
+                               "(a ValueError inside a two-level loop guarded by an `is zero` test)")
+    r, (inner, outer) = cands[0][0], cands[0][1]
+    if not (isinstance(outer.target, ast.Name) and isinstance(inner.target, ast.Name) and inner in outer.body):
+        raise AnalysisError(R, "loop nest of the H_0 check not understood")
+    I, J = outer.target.id, inner.target.id
+    N = 3
+    base = {"H.shape[0]": N, "H.shape[1]": N, "len(H.shape)": 2}
+    visited = {}
+    guard_rows = set()
+    for herm in (False, True):
+        seen = set()
+        ov = _range_values(outer.iter, base)
+        if ov is None:
+            raise AnalysisError(R, f"outer loop range `{norm(outer.iter)}` is not closed over the block grid")
+        for i in ov:
+            iv = _range_values(inner.iter, {**base, I: i})
+            if iv is None:
+                raise AnalysisError(R, f"inner loop range `{norm(inner.iter)}` is not closed over the block grid")
+            for j in iv:
+                sub = {**base, I: i, J: j, "hermitian": herm}
+                atom = lambda n, sub=sub: _const_eval(n, sub)
+                for o in outcomes(inner.body, None, env={}, atom=atom, expand=False):
+                    if o.kind != "raise":
+                        continue
+                    # which block does the deciding `is zero` test look at?
+                    blocks = set()
+                    free = []
+                    for t, pol in o.conds:
+                        if _const_eval(t, sub) is not None:
+                            continue
+                        free.append((t, pol))
+                        for n in ast.walk(t):
+                            if isinstance(n, ast.Subscript) and norm(n.value) == "H" and isinstance(n.slice, ast.Tuple) and len(n.slice.elts) == 3:
+                                a_, b_ = _int_eval(n.slice.elts[0], sub), _int_eval(n.slice.elts[1], sub)
+                                tail = n.slice.elts[2]
+                                tt = norm(resolved(tail.value, env_at(outer, f))) if isinstance(tail, ast.Starred) else ""
+                                if a_ is None or b_ is None or not (tt.startswith("(0,) * ") and tt.endswith(".n_infinite")):
+                                    raise AnalysisError(R, f"tested element `{norm(n)[:60]}` is not a zeroth-order block of H")
+                                blocks.add((a_ % N, b_ % N))
+                    if len(blocks) != 1:
+                        raise AnalysisError(R, f"the rejecting path for loop point ({i}, {j}) tests {len(blocks)} blocks of H")
+                    seen |= blocks
+                    # remaining guard: raise iff the block is non-zero and not a symbolic expression
+                    row = []
+                    for t, pol in free:
+                        for a_ in bool_atoms(t):
+                            tx, apol = canon_atom(a_)
+                            kind = "zero" if " is zero" in tx else ("symbolic" if tx.startswith("isinstance(") and "sympy." in tx else "?" + tx)
+                            row.append((kind, pol if apol else not pol, len(bool_atoms(t))))
+                    guard_rows.add(tuple(sorted(row)))
+        visited[herm] = seen
+    offd = {(a_, b_) for a_ in range(N) for b_ in range(N) if a_ != b_}
+    diag_hit = [herm for herm, s_ in visited.items() if any(a_ == b_ for a_, b_ in s_)]
+    ok_nh = offd <= visited[False]
+    ok_h = all((a_, b_) in visited[True] or (b_, a_) in visited[True] for a_, b_ in offd)
+    rep.check(ok_nh and ok_h and not diag_hit, R,
+              f"{MOD}::block_diagonalize rejects a non-zero off-diagonal block of H_0 (every i != j; upper only when Hermitian)",
+              f"blocks whose non-zero value is rejected on a 3 x 3 grid: hermitian=False {sorted(visited[False])}, hermitian=True {sorted(visited[True])}"
+              + ("; a diagonal block is rejected" if diag_hit else ""), loc(r))
+    rep.ok(R, f"{MOD}::block_diagonalize block-diagonality check visits every block pair", "loop nest folded over the grid", loc(outer))
+    want_row = {(("symbolic", False, 1), ("zero", False, 1))}
+    if any(k.startswith("?") for row in guard_rows for k, _p, _n in row):
+        raise AnalysisError(R, f"the rejection of a non-zero block depends on a condition that is not understood: {sorted(guard_rows)}")
+    rep.check(guard_rows == want_row, R, f"{MOD}::block_diagonalize the tested block is H[i, j] at order zero",
+              f"a visited block is rejected iff it is not `zero` and not a symbolic expression: {sorted(guard_rows)}", loc(r))
+    loops = [inner, outer]
     # dominance: the loop and the zero-diagonal check precede series_computation
     g = CFG(f)
     dom = g.dominators()
